@@ -295,7 +295,7 @@ def rule_startup_order(ctx):
     ctx.check(seq == ["reset_interrupted_steps", "rescan_env_vars", "rescan_files", "rescan_nglobs"], rd.fq, "reset interrupted -> env vars -> files -> globs", f"startup order is {seq}", "order kept")
     ri = ctx.prog.func("startup.reset_interrupted_steps")
     src = _norm(ast.unparse(ri.node))
-    ctx.check("failed_steps = workflow.steps(StepState.FAILED)" in src and "workflow.mark_step_pending(step)" in src, ri.fq, "failed (incl. interrupted) steps go through the ordinary invalidation", "interrupted steps change state without outdating their outputs", "mark_step_pending")
+    shared.check_failed_steps_retried(ctx, "a step that failed (or was interrupted) while detached comes back FAILED when an ancestor is recycled and skipped, and is never retried: the incremental build fails where a build from scratch succeeds")
 
 
 RULES = [
